@@ -47,6 +47,8 @@ def sweep_step(e, tier="quick", usage=False, others=None, crowd=0):
         prot.append(Implies(z3.Not(b.p), bundle_absent(b, post)))
     A["C12.protected"] = And(*prot)
     A["C13.swept"] = And(*swept)
+    # the fate of a bundle is a function of its own `updated` and its own subscribers only
+    A["C06.sweep_per_bundle"] = And(A["C12.protected"], A["C13.swept"])
     A["C13.no_new_rows"] = no_new_rows(pre, post)
     A["C12.no_new_rows"] = A["C13.no_new_rows"]
     # subscribers stay subscribed
